@@ -36,8 +36,10 @@ func runC16(o opts) error {
 			scns = append(scns, c16.Exhaustive("LMSHNWC", 0, 5, 8, []string{"plain", "rich"})...)
 			scns = append(scns, c16.Exhaustive("LSHNWC", 6, 6, 6, []string{"plain", "rich"})...)
 			scns = append(scns, c16.Exhaustive("LSHNWC", 0, 5, 8, []string{"hard"})...)
+			scns = append(scns, c16.Exhaustive("LSHNA", 1, 5, 6, []string{"rich", "hard"})...) // with isolated accents
 		} else {
 			scns = append(scns, c16.Exhaustive("LMSHNWC", 0, 4, 7, all)...)
+			scns = append(scns, c16.Exhaustive("LSNA", 1, 4, 5, []string{"rich", "hard"})...) // with isolated accents (cells are clusters)
 		}
 		nrand := 900
 		if o.tier == "thorough" {
